@@ -26,6 +26,7 @@ FINGERPRINTS = [
     ("src/cli/linters/shared.py", ["run_linter_command", "create_linter_command", "prepare_standard_command", "extract_command_context"]),
     ("src/cli/main.py", ["cli"]),
     ("src/core/types.py", ["Violation", "Severity"]),
+    ("src/orchestrator/core.py", ["_safe_check_rule", "_execute_rules"]),
 ]
 
 FIELDS = {"rule_id": "FRule", "file_path": "FFile", "line": "FLine", "column": "FCol", "message": "FMsg"}
@@ -566,6 +567,31 @@ def group_config_check():
     return defn("group_config_missing_exit", "option Z", "None" if found is None else f"(Some {zlit(found)})")
 
 
+def rule_exception_policy():
+    """Orchestrator._safe_check_rule: the except clauses around rule.check(context), in order, with what each does:
+    re-raise (the run ends in handle_linting_error) or swallow (log, the rule contributes no violation)"""
+    cls = find_class(parse("src/orchestrator/core.py"), "Orchestrator")
+    f = find_func(cls, "_safe_check_rule")
+    tr = [n for n in _body(f) if isinstance(n, ast.Try)]
+    if len(tr) != 1 or len(_body(f)) != 1 or tr[0].orelse or tr[0].finalbody:
+        raise Unsupported("_safe_check_rule: expected a single try statement")
+    if [ast.unparse(x) for x in tr[0].body] != ["return rule.check(context)"]:
+        raise Unsupported("_safe_check_rule: guarded call changed")
+    rows = []
+    for h in tr[0].handlers:
+        if not isinstance(h.type, ast.Name):
+            raise Unsupported(f"_safe_check_rule: handler type {ast.unparse(h.type) if h.type else 'bare'}")
+        stmts = [x for x in h.body]
+        if len(stmts) == 1 and isinstance(stmts[0], ast.Raise) and stmts[0].exc is None:
+            act = "true"
+        elif isinstance(stmts[-1], ast.Return) and ast.unparse(stmts[-1].value) == "[]" and not any(isinstance(n, ast.Raise) for x in stmts for n in ast.walk(x)):
+            act = "false"
+        else:
+            raise Unsupported(f"_safe_check_rule: handler body of {h.type.id}")
+        rows.append(f"({coq_string(h.type.id)}, {act})")
+    return defn("rule_exception_policy", "list (string * bool)", coq_list(rows))
+
+
 # ------------------------------------------------------------------ syntax-error violations
 def syntax_defaults():
     """`line=<err>.lineno or K`, `column=<err>.offset or K'` in the syntax-error violation builders"""
@@ -615,5 +641,6 @@ ITEMS = [
     ("usage_exit_sites", usage_exits),
     ("dry_config_null_guard", dry_null_guard),
     ("group_config_missing_exit", group_config_check),
+    ("rule_exception_policy", rule_exception_policy),
     ("syntax_error_defaults", syntax_defaults),
 ]
